@@ -26,6 +26,10 @@ action try_handler {
     err = errPOutOfRange
     fbreak;
   }
+  if pp > pe - p {
+    err = errPOutOfRange
+    fbreak;
+  }
   if pp != 0 {
     if p + pp - 1 >= pe {
       err = errPOutOfRange
